@@ -176,6 +176,68 @@ def parse_json(text):
                       parse_constant=bad)
 
 
+_JTOK = None
+
+
+def json_wellformed(text):
+    """iterative (depth-unbounded) check that text is exactly one JSON value"""
+    import re
+    global _JTOK
+    if _JTOK is None:
+        _JTOK = re.compile(r'[ \t\r\n]*(?:([{}\[\],:])|("(?:[^"\\\x00-\x1f]|\\["\\/bfnrt]|\\u[0-9a-fA-F]{4})*")|(-?(?:0|[1-9][0-9]*)(?:\.[0-9]+)?(?:[eE][+-]?[0-9]+)?)|(true|false|null))')
+    pos, n = 0, len(text)
+    stack = []          # 'o' object, 'a' array
+    state = "value"     # value | key_or_end | colon | comma_or_end | elem_or_end | done
+    while True:
+        m = _JTOK.match(text, pos)
+        if not m:
+            break
+        pos = m.end()
+        p, st, num, lit = m.groups()
+        is_val = st is not None or num is not None or lit is not None
+        if state in ("value", "elem_or_end") and (is_val or p in ("{", "[")) or (state == "elem_or_end" and p == "]"):
+            if p == "]":
+                stack.pop()
+            elif p == "{":
+                stack.append("o"); state = "key_or_end"; continue
+            elif p == "[":
+                stack.append("a"); state = "elem_or_end"; continue
+            state = "comma_or_end" if stack else "done"
+        elif state == "key_or_end" and (st is not None or p == "}"):
+            if p == "}":
+                stack.pop(); state = "comma_or_end" if stack else "done"
+            else:
+                state = "colon"
+        elif state == "key" and st is not None:
+            state = "colon"
+        elif state == "colon" and p == ":":
+            state = "value"
+        elif state == "comma_or_end" and p is not None and stack:
+            if p == ",":
+                state = "key" if stack[-1] == "o" else "value"
+            elif (p == "}" and stack[-1] == "o") or (p == "]" and stack[-1] == "a"):
+                stack.pop(); state = "comma_or_end" if stack else "done"
+            else:
+                return False
+        else:
+            return False
+        if state == "done":
+            break
+    return state == "done" and text[pos:].strip(" \t\r\n") == ""
+
+
+def dedupe(t):
+    """OrderedMap.Set semantics for duplicate sibling keys: the last value wins, at the first position"""
+    if isinstance(t, Obj):
+        o = Obj()
+        for k, v in t:
+            o.set(k, dedupe(v))
+        return o
+    if isinstance(t, list):
+        return [dedupe(v) for v in t]
+    return t
+
+
 def kind(t):
     if t is None:
         return "null"
